@@ -6,6 +6,7 @@ Part 2 (below): the full decoder model accepts only what the walker accepts, so 
 -- audit-parts: ZstdVerif/Lemmas/WalkerRT.lean
 import ZstdVerif.Lemmas.WalkerRT
 import ZstdVerif.Lemmas.TruncRT
+import ZstdVerif.Model.Params
 namespace ZstdVerif.Props.C09
 open ZstdVerif
 
@@ -52,5 +53,48 @@ theorem decoder_header_truthful {src : Bytes} {ip0 rem : Nat} {dict : Dict} {out
     (hd.dictID ≠ 0 → dict.id = hd.dictID) :=
   ⟨fun _ hn => TruncRT.decoder_fcs_enforced h hh hn, fun hc hi => (TruncRT.decoder_checksum_enforced h hh hc hi).2.2,
    fun hn => TruncRT.decoder_dictID_enforced h hh hn⟩
+
+/-! ### decoder parameters and validation: what a ZSTD_DCtx decodes with is a function of its parameter values (Model/Params.lean, rows regenerated
+from the source, defaults read back from a fresh context; tied to the real ZSTD_DCtx_setParameter / ZSTD_DCtx_reset / ZSTD_DCtx_getParameter and to
+the decoding verdicts by the decoder histories of tools/props/c09.py) -/
+
+/-- value of decompression parameter `id` in a context of the parameter model (0 when the tree has no such parameter) -/
+def dval (c : Params.Ctx) (id : Nat) : Int :=
+  match Gen.dparams.findIdx? (·.id == id) with
+  | some k => (c.vals[k]?).getD 0
+  | none => 0
+
+/-- the options the decoder runs with: ZSTD_d_format (1000), ZSTD_d_forceIgnoreChecksum (1002), ZSTD_d_maxBlockSize (1005) -/
+def dOpts (c : Params.Ctx) : Frame.Opts :=
+  { magicless := dval c 1000 == 1, ignoreChecksum := dval c 1002 != 0, maxBlockSize := (dval c 1005).toNat }
+
+/-- **dctx_reset_restores_validation**: after ZSTD_DCtx_reset with `parameters` or `session_and_parameters` - whatever was set before - the decoder
+runs with the options of a fresh context: standard format, checksum VERIFIED, no block-size limit, default window limit -/
+theorem dctx_reset_restores_validation (s s' : Params.Ctx) (r : Params.Reset) (hr : r ≠ .session) (h : Params.reset Gen.dparams s r = .ok s') :
+    s' = Params.fresh Gen.dparams ∧ (dOpts s').ignoreChecksum = false ∧ (dOpts s').magicless = false ∧ (dOpts s').maxBlockSize = 0 ∧
+    dval s' 100 = dval (Params.fresh Gen.dparams) 100 := by
+  have hs : s' = Params.fresh Gen.dparams := by
+    cases r with
+    | session => exact absurd rfl hr
+    | parameters =>
+      unfold Params.reset at h
+      simp only at h
+      split at h
+      · cases h
+      · cases h; rfl
+    | sessionAndParameters =>
+      unfold Params.reset at h
+      cases h; rfl
+  subst hs
+  refine ⟨rfl, ?_, ?_, ?_, rfl⟩ <;> decide
+
+open Frame TruncRT in
+/-- hence a frame with a checksum that a context accepts after such a reset carries the XXH64-derived checksum of what was regenerated -/
+theorem checksum_enforced_after_reset (s s' : Params.Ctx) (r : Params.Reset) (hr : r ≠ .session) (hreset : Params.reset Gen.dparams s r = .ok s')
+    {src : Bytes} {ip0 rem : Nat} {dict : Dict} {out0 : ByteArray} {cap : Nat} {out : ByteArray} {used : Nat} {tr : FrameTrace}
+    (h : decompressFrame src ip0 rem dict out0 cap (dOpts s') = .ok (out, used, tr)) {hd : Header}
+    (hh : getHeader src ip0 rem (dOpts s').magicless = .ok hd) (hc : hd.checksum = true) :
+    src.le32 (ip0 + used - 4) = (XXH64.hashRange out out0.size (out.size - out0.size)).toNat &&& 0xFFFFFFFF :=
+  (decoder_header_truthful h hh).2.1 hc (dctx_reset_restores_validation s s' r hr hreset).2.1
 
 end ZstdVerif.Props.C09
